@@ -9,6 +9,7 @@ import Jesse.Gen.Utils
 import Jesse.Gen.Position
 import Jesse.Gen.Routing
 import Jesse.Gen.Tables
+import Jesse.Gen.Sim
 import Spec.PathSplit
 
 namespace Driver.Pure
@@ -57,6 +58,10 @@ def call (fn : String) (args : List String) : String :=
   | "path_split" =>
       match parseCandle? (args.take 6), (args.drop 6).mapM parseRat? with
       | some k, some [p] => let ab := Spec.pathSplit k p; "ok " ++ showCandle ab.1 ++ " | " ++ showCandle ab.2
+      | _, _ => bad
+  | "fix_jump" =>
+      match parseCandle? (args.take 6), parseCandle? (args.drop 6) with
+      | some p, some k => "ok " ++ showCandle (fixJump p k)
       | _, _ => bad
   | "generate_candle" =>
       match args with
